@@ -30,7 +30,7 @@ def run(chk):
     ops, reals = [], []
     for s in ["", "A", "AC", "AAC", "CAD", "YY", "ACDA"] + [rng.choice(aapools[0][1]) for _ in range(6)]:
         for k in (1, 2):
-            if len(s) > 3 and k > 1:
+            if len(s) > 1 and k > 1:
                 continue
             for ham in (False, True):
                 ops.append({"op": "bfs_ball", "q": s, "k": k, "A": AA, "ham": ham})
@@ -57,7 +57,10 @@ def run(chk):
 
     def add_lookupdb(label, ref, qs, k, model=True):
         for pdist in (False, True):
-            mop = {"op": "lookupdb", "ref": ref, "qs": qs, "k": k, "mode": "lev", "pdist": pdist, "A": AA} if model else None
+            small = k == 1 and max([len(q) for q in qs] + [0]) <= 6
+            mop = {"op": "lookupdb", "ref": ref, "qs": qs, "k": k, "mode": "lev", "pdist": pdist, "A": AA} if (model and small) else None
+            if pdist and mop is None:
+                continue
             sop = {"op": "brute_cross", "ref": ref, "qs": qs, "k": k, "mode": "lev"}
             meta = {"ref": ref, "qs": qs, "k": k, "pdist": pdist}
             if pdist:
